@@ -44,6 +44,33 @@ GROUPS = {
               for klass, name in (("OrthogonalMooreGrid", "moore"), ("OrthogonalVonNeumannGrid", "vn"), ("HexGrid", "hex"))],
         ],
     },
+    "CellOcc": {
+        # the occupancy mutators of cell.py on a record standing for one cell; agents are named by creation index (a Nat, as in
+        # the hand-written model Model/CellSpace.lean), `raise` is `Except`, the state attributes come back after the value
+        "namespace": "Mesa.Cells.GenOcc",
+        "path": "MesaModel/Gen/FnCellOcc.lean",
+        "recs": [Rec("CellRec", {"coordinate": LI, "_agents": ("L", "Nat"), "capacity": ("O", "Int"), "empty": "Bool"}),
+                 Rec("FixedRec", {"unique_id": "Nat", "_mesa_cell": ("O", LI)}),
+                 Rec("MoverRec", {"unique_id": "Nat"})],
+        "fns": [
+            Fn("C06", "mesa/discrete_space/cell.py", "Cell.agents", "agents", {}, self_rec="CellRec"),
+            Fn("C06", "mesa/discrete_space/cell.py", "Cell.is_empty", "is_empty", {}, self_rec="CellRec", props={"agents": "agents"}),
+            Fn("C06", "mesa/discrete_space/cell.py", "Cell.is_full", "is_full", {}, self_rec="CellRec", props={"agents": "agents"}),
+            Fn("C06", "mesa/discrete_space/cell.py", "Cell.add_agent", "add_agent", {"agent": "Nat"}, self_rec="CellRec",
+               state={"self._agents": ("L", "Nat"), "self.empty": "Bool"}),
+            Fn("C06", "mesa/discrete_space/cell.py", "Cell.remove_agent", "remove_agent", {"agent": "Nat"}, self_rec="CellRec",
+               state={"self._agents": ("L", "Nat"), "self.empty": "Bool"}, props={"is_empty": "is_empty"}, list_remove_raises=True),
+            # cell_agent.py: `self.cell = cell` is the effect "the `cell` setter runs with this cell" (cells named by their coordinate)
+            Fn("C06", "mesa/discrete_space/cell_agent.py", "BasicMovement.move_to", "move_to", {"cell": LI}, self_rec="MoverRec",
+               effects={"self.cell=": ("T", LI)}),
+            # FixedCell: the getter, and the setter on (agent record, record of the target cell): `cell.add_agent(self)` updates the
+            # cell's record (an error is passed on), `self._mesa_cell = cell` stores the cell's name (its coordinate)
+            Fn("C06", "mesa/discrete_space/cell_agent.py", "FixedCell.cell", "fixed_cell", {}, self_rec="FixedRec"),
+            Fn("C06", "mesa/discrete_space/cell_agent.py", "FixedCell.cell.setter", "fixed_set_cell", {"cell": ("R", "CellRec")},
+               self_rec="FixedRec", state={"cell": ("R", "CellRec"), "self._mesa_cell": ("O", LI)}, props={"cell": "cell"},
+               self_as="unique_id", ref_key={"CellRec": "coordinate"}),
+        ],
+    },
     "Legacy": {
         "namespace": "Mesa.Legacy.GenFn",
         "path": "MesaModel/Gen/FnLegacy.lean",
@@ -103,11 +130,32 @@ GROUPS = {
 }
 
 REGISTRY = {
+    "C06": {
+        "groups": ["CellOcc"],
+        "functions": ["Cell.agents", "Cell.is_empty", "Cell.is_full", "Cell.add_agent", "Cell.remove_agent",
+                      "BasicMovement.move_to", "FixedCell.cell", "FixedCell.cell.setter"],
+        "lean_modules": ["MesaModel.Proofs.XlateCellOcc"],
+        "theorems": ["Mesa.Cells." + t for t in (
+            "C06_gen_agents_eq_model", "C06_gen_is_empty_eq_model", "C06_gen_is_full_eq_model", "C06_gen_add_agent_eq_model",
+            "C06_gen_remove_agent_eq_model", "C06_model_mutators_are_generated", "C06_capacity_generated",
+            "C06_empty_flag_generated", "C18_cells_rejected_mutator_generated", "C06_gen_move_to_eq_model",
+            "C06_capacity_generated_any_int", "C06_gen_fixed_cell_eq_model", "C06_gen_fixed_set_cell_eq_model",
+            "C18_cells_fixed_set_cell_reject_generated")],
+    },
     "C05": {
         "groups": ["Steps"],
         "functions": ["Model._wrapped_step"],
         "lean_modules": ["MesaModel.Proofs.XlateSteps"],
         "theorems": ["Mesa.Steps." + t for t in ("C05_gen_wrapped_step_eq_model", "C05_increment_before_user_code_generated")],
+    },
+    "C18": {
+        # C18-cells over the generated text: a rejected add_agent / remove_agent leaves the cell's record unchanged
+        "groups": ["CellOcc"],
+        "functions": ["Cell.add_agent", "Cell.remove_agent", "FixedCell.cell.setter"],
+        "lean_modules": ["MesaModel.Proofs.XlateCellOcc"],
+        "theorems": ["Mesa.Cells." + t for t in (
+            "C06_gen_add_agent_eq_model", "C06_gen_remove_agent_eq_model", "C18_cells_rejected_mutator_generated",
+            "C06_gen_fixed_set_cell_eq_model", "C18_cells_fixed_set_cell_reject_generated")],
     },
     "C08": {
         "groups": ["Legacy"],
